@@ -529,6 +529,8 @@ def _wide_shard(ctx: Ctx, item):
 
 
 def run(ctx: Ctx):
+    from .. import longrun
+    pmap(ctx, longrun.ticks, [(x, "C04") for x in longrun.limits(ctx)])
     fmts = ["ebyte"] if ctx.quick else ["ebyte", "usb", "yd"]
     n = 40 if ctx.quick else 400
     steps = 40 if ctx.quick else 80
@@ -556,6 +558,9 @@ def run(ctx: Ctx):
 
 
 def replay(ctx: Ctx, case):
+    if "ticks" in case:
+        from .. import longrun
+        return longrun.replay(case, "C04")
     if "wide" in case:
         sub = Ctx(ctx.pid)
         sub.known_open = {}
